@@ -7,6 +7,7 @@ mod expect;
 mod fuzz;
 mod monitors;
 mod profiles;
+mod realdrv;
 mod refmqtt;
 mod report;
 mod rng;
@@ -39,6 +40,7 @@ fn main() {
                 "C16" => valfuzz::run_c16(&tier, seed),
                 "C12" => clientsim::run_c12(&tier, seed),
                 "C20" => awscheck::run_c20(&tier, seed),
+                "C13" => realdrv::run_c13(&tier, seed),
                 "C19" => clientsim::run_c19(&tier, seed),
                 "C03" => codecfuzz::run_c03(&tier, seed),
                 _ => { println!("INCONCLUSIVE property={} reason=unknown-check", id); 3 }
